@@ -46,6 +46,7 @@ PROP = {
         "(c) several lives: cleanup() + initialize() are called from the top level of a loop pass on the same proto object, at most 4 lives; a request outstanding at cleanup() is abandoned (never completed by the code; tolerated: one timeout error); respond() is not called for peer requests of an earlier life",
         "(c) of two copies of a response for the same id inside one batch array both carry the same payload (JSON-RPC does not order a batch)",
         "traffic logging (Proto::setLogEnable(true) + label + a registered log output channel that swallows the lines) is switched on in 21-34 % of the cases of every sub-check; the libraries are built without STATIC_LOG_LEVEL, so LogTrace is compiled in",
+        "statelessness across streams: in the unmodified code no proto keeps decoder state between onRecvData calls, so a proto object that is re-used for a new stream (receive buffer from offset 0 after a dropped connection) must decode it exactly like a fresh object",
         "stack exhaustion is tested up to 300 000 nesting levels / 4 MiB runs (8 MiB main-thread stack, ASan frames)",
     ],
 }
